@@ -37,6 +37,8 @@ import DafRel.Lemmas.JoinFactory
 
 namespace DafRel.Props.C17
 
+variable {I : NodeInv}
+
 open DafRel
 
 theorem conform_select_is_same (st : Store) (fuel : Nat) (oid : Nat) (so : List SortTerm) (pr : Option Cols)
@@ -87,7 +89,7 @@ theorem append_unary_to_select_sound (σ : Leaves) (st : Store) (fuel : Nat) (op
     (hS : SelOK σ S) (hop : op.wfOn S.columns = true)
     (hpush : ∀ c, op = .proj c → ∀ l r cc, S.skipTo = .binary .chain l r cc → ∀ x res', (x = l ∨ x = r) →
       applyOp st fuel (.u (.proj c)) x {} = .ok res' →
-      Good σ (res'.get x) ∧ FinishOK σ (.proj c) x (res'.get x) ∧ (res'.get x).isSelect = true)
+      Good I σ (res'.get x) ∧ FinishOK σ (.proj c) x (res'.get x) ∧ (res'.get x).isSelect = true)
     (h : appendUnarySel st (fuel+1) (.u op) S = .ok res) : AppendOK σ op S (res.get S) :=
   (appendUnarySel_sound σ st fuel op S res hS hop hpush h).1
 
